@@ -726,6 +726,78 @@ theorem responder_auth (rs re : Nat) (a1 a2 : Act12) (a3 : Act3) (r1 r2 r3 : HSt
       HState.encryptAndHash, HState.decryptAndHash, hsOpen, handshakeVersion, mkDh_comm, HState.split,
       CipherState.init]
   · simp
+/-! ## 5b. fragmentation -/
+
+/-- `io.ReadFull` semantics: what is assembled depends only on the byte stream, not on how it
+    is cut into fragments — the first `n` bytes of the concatenation, leaving exactly the rest;
+    it fails iff the stream is shorter than `n`. -/
+theorem readFullF_flatten {α : Type} (fs : List (List α)) : ∀ (n : Nat),
+    (n ≤ fs.flatten.length → ∃ r, readFullF n fs = some (fs.flatten.take n, r) ∧
+        r.flatten = fs.flatten.drop n) ∧
+    (fs.flatten.length < n → readFullF n fs = none) := by
+  induction fs with
+  | nil =>
+    intro n
+    refine ⟨fun h => ?_, fun h => ?_⟩
+    · have : n = 0 := by simpa using h
+      subst this; exact ⟨[], by simp [readFullF]⟩
+    · have : n ≠ 0 := by simp at h; omega
+      simp [readFullF, this]
+  | cons f fs ih =>
+    intro n
+    simp only [List.flatten_cons, List.length_append, readFullF]
+    by_cases hn : n ≤ f.length
+    · refine ⟨fun _ => ⟨f.drop n :: fs, ?_, ?_⟩, fun h => by omega⟩
+      · simp [hn, List.take_append_of_le_length hn]
+      · simp [List.drop_append_of_le_length hn]
+    · obtain ⟨a, b⟩ := ih (n - f.length)
+      have hlt : f.length < n := by omega
+      refine ⟨fun h => ?_, fun h => ?_⟩
+      · obtain ⟨r, h1, h2⟩ := a (by omega)
+        refine ⟨r, ?_, ?_⟩
+        · simp only [hn, if_false, h1, Option.map_some]
+          rw [List.take_append, List.take_of_length_le (Nat.le_of_lt hlt)]
+        · rw [h2, List.drop_append, List.drop_of_length_le (Nat.le_of_lt hlt)]
+          simp
+      · simp [hn, b (by omega)]
+
+/-- the model's atomic `readFull` is `io.ReadFull` over ANY fragmentation of the same stream:
+    same bytes delivered, same bytes left, same success/failure (reader-side fragmentation is
+    invisible to `ReadHeader` / `ReadBody` / `ReadMessage`). -/
+theorem readFull_fragmentation_independent (n : Nat) (fs : List (List WByte)) :
+    (∀ bs rest, readFull n fs.flatten = (.ok bs, rest) →
+      ∃ r, readFullF n fs = some (bs, r) ∧ r.flatten = rest) ∧
+    (∀ e rest, readFull n fs.flatten = (.error e, rest) → readFullF n fs = none) := by
+  obtain ⟨a, b⟩ := readFullF_flatten fs n
+  refine ⟨?_, ?_⟩
+  · intro bs rest h
+    obtain ⟨hw, hl⟩ := readFull_ok _ _ _ _ h
+    have hle : n ≤ fs.flatten.length := by rw [hw, List.length_append]; omega
+    obtain ⟨r, h1, h2⟩ := a hle
+    simp only [readFull, hle, if_true, Prod.mk.injEq, Except.ok.injEq] at h
+    exact ⟨r, by rw [h1, h.1], by rw [h2, h.2]⟩
+  · intro e rest h
+    by_cases hle : n ≤ fs.flatten.length
+    · simp only [readFull, hle, if_true, Prod.mk.injEq] at h
+      exact absurd h.1 (by simp)
+    · exact b (by omega)
+
+/-- handshake outcome is independent of fragmentation: `Dial` and `doHandshake` read each act
+    with `io.ReadFull`, so for every serialisation `enc` of an act into `size` bytes and every
+    way the stream `enc a ++ later` is cut into fragments (first fragment of one byte, the rest
+    arriving later, …) the receiver gets exactly `enc a` and is left with exactly `later`; hence
+    the act handed to `RecvAct*` is the act sent and `connHandshake … .none` is the outcome for
+    every fragmentation. -/
+theorem act_delivery_fragmentation_independent {α β : Type} (enc : α → List β) (size : Nat)
+    (a : α) (ha : (enc a).length = size) (later : List β) (fs : List (List β))
+    (hfs : fs.flatten = enc a ++ later) :
+    ∃ r, readFullF size fs = some (enc a, r) ∧ r.flatten = later := by
+  obtain ⟨h, _⟩ := readFullF_flatten fs size
+  obtain ⟨r, h1, h2⟩ := h (by rw [hfs, List.length_append]; omega)
+  refine ⟨r, ?_, ?_⟩
+  · rw [h1, hfs, ← ha]; simp
+  · rw [h2, hfs, ← ha]; simp
+
 /-! ## 6. conn.go / listener.go -/
 
 /-- `Dial` against `Listener.doHandshake` with nothing altered in flight: both succeed iff the
